@@ -65,7 +65,10 @@ def pathlike_leaves():
     lits = [{"path": ["a", 0]}, {"PATH.length": 1}, {"\\path": 1, "b": 2}, {"Path": "x", "b": 1}, {"my\\Path": None}]
     out = [DslLeaf(V, "equal_to", [Const(l)]) for l in lits]
     out += [DslLeaf(V, "in_", [Const([lits[0], 1])]), DslLeaf(V, "items_contain_any_of", [Const(lits[0]), Const(lits[2])]) if hasattr(V, "items_contain_any_of") else DslLeaf(V, "keys_contain_any_of", [Const("path"), Const("b")]),
-            DslLeaf(V, "equal_to", [Const({"k": lits[0]})])]
+            DslLeaf(V, "equal_to", [Const({"k": lits[0]})]),
+            # two or more levels inside the argument: neither escaped nor un-escaped, so read back as written
+            DslLeaf(V, "equal_to", [Const({"output": {"log": {"path": "/tmp/run.log"}}})]),
+            DslLeaf(V, "in_", [Const([[{"path": ["a", 0]}], 3])]), DslLeaf(V, "equal_to", [Const([{"k": {"\\path": 1}}])])]
     return out
 
 
